@@ -173,6 +173,7 @@ def rule_refeed(ctx):
                   "through a call that moves the unconsumed tail to the front (copy_within; drain / rotate_left / split_off accepted): "
                   "otherwise the next read lands behind stale bytes and a box header that straddles a read boundary is parsed from "
                   "garbage")
+    from ..mirutil import helper_reaches
     ox = ctx.prog.crate("jxl_oxide")
     MOVE = ("copy_within", "drain", "rotate_left", "split_off")
     n = 0
@@ -191,6 +192,12 @@ def rule_refeed(ctx):
                 reads.add(b)
             elif nm.split("::")[-1] in MOVE and ("slice" in nm or "Vec" in nm or "vec" in nm):
                 moves.add(b)
+            else:
+                # a private helper that moves the tail (`discard_consumed(&mut buf, &mut buf_valid, consumed)`)
+                h = ox.fns.get(c.get("res") or nm) or ox.fns.get(nm)
+                if h is not None and h is not f and helper_reaches(
+                        ox, h, lambda n: n.split("::")[-1] in MOVE and ("slice" in n or "Vec" in n or "vec" in n), depth=1):
+                    moves.add(b)
         if not feeds or not reads:
             continue
         ctx.seen(f)
